@@ -236,6 +236,31 @@ struct Keyed {
     by_color: BTreeMap<Color, i8>,
 }
 
+/// Enums that serde decodes through its buffered `Content` (internally tagged / untagged), holding maps
+/// whose keys look like numbers.
+#[derive(Serialize, Deserialize, PartialEq, Debug, Clone)]
+#[serde(tag = "type")]
+enum ScoreReport {
+    Scores { by_player: BTreeMap<String, i32> },
+    Note { text: String },
+}
+
+#[derive(Serialize, Deserialize, PartialEq, Debug, Clone)]
+#[serde(untagged)]
+enum Shape {
+    Point { x: i32, y: i32 },
+    Named(BTreeMap<String, i32>),
+}
+
+/// A map key whose own `Serialize` refuses.
+#[derive(Debug, Clone, PartialEq, Eq, PartialOrd, Ord)]
+struct RefusingKey(u8);
+impl Serialize for RefusingKey {
+    fn serialize<S: serde::Serializer>(&self, _: S) -> Result<S::Ok, S::Error> {
+        Err(serde::ser::Error::custom("this key refuses to be serialised"))
+    }
+}
+
 /// Struct variants whose payload may legitimately be the empty map.
 #[derive(Serialize, Deserialize, PartialEq, Debug, Clone)]
 enum Cmd {
@@ -495,6 +520,8 @@ fn foreign_pool() -> Vec<Value> {
         json!("127.0.0.1"), json!("::1"), json!("x"), json!({"V4": [127, 0, 0, 1]}),
         json!({"Ok": 1}), json!({"Err": "e"}), json!({"Ok": "e"}), json!({"ok": 1}), json!({"Ok": 1, "Err": "e"}),
         json!({"start": 1, "end": 5}), json!({"start": 1}), json!([1, 5]), json!("Unbounded"), json!({"Included": 3}), json!({"Excluded": 300}),
+        json!({"type": "Scores", "by_player": {"7": 31, "23": 18}}), json!({"by_player": {"-1": 0, "1e3": 2}, "type": "Scores"}), json!({"x": 1, "1": 7}), json!({"x": 1, "y": 2}), json!({"7": 1, "08": 2}),
+        json!({"type": "Note", "text": "t", "7": 1}),
         json!("edge-7"), json!([101, 100, 103, 101]), json!([0, 1]), json!("with\u{0}nul"), json!({"a": "s", "b": [1, 2]}), json!(["s", [1]]), json!([256]), json!([-1]), json!({"Unix": [1, 2]}),
         json!({"Flush": {}}), json!({"Open": {}}), json!({"Retry": {}}), json!({"Flush": null}), json!({"Flush": []}), json!("Flush"), json!("Close"), json!({"Close": {}}), json!({"Close": null}),
         json!({"Open": {"mode": 3}}), json!({"Open": {"path": null}}), json!({"Open": []}), json!({"Open": [null, 1]}), json!({"Retry": {"n": 1, "x": 0}}), json!({"Flush": {"x": 1}}),
@@ -528,7 +555,7 @@ pub fn run(args: &Args) {
                 std::time::Duration => "Duration", std::net::IpAddr => "IpAddr", std::num::NonZeroU8 => "NonZeroU8", Result<i32, String> => "Result<i32,String>",
                 std::ops::Range<i32> => "Range<i32>", std::collections::BTreeSet<u8> => "BTreeSet<u8>", (i32,) => "(i32,)", std::ops::Bound<u8> => "Bound<u8>",
                 [u8; 0] => "[u8;0]", std::path::PathBuf => "PathBuf", Box<Option<i16>> => "Box<Option<i16>>", std::num::Wrapping<u8> => "Wrapping<u8>",
-                Option<Vec<Option<(bool, char)>>> => "Option<Vec<Option<(bool,char)>>>", (Version, Color) => "(Version,Color)", Vec<Version> => "Vec<Version>", Cmd => "Cmd", Vec<Cmd> => "Vec<Cmd>", Option<Cmd> => "Option<Cmd>",
+                Option<Vec<Option<(bool, char)>>> => "Option<Vec<Option<(bool,char)>>>", (Version, Color) => "(Version,Color)", Vec<Version> => "Vec<Version>", Cmd => "Cmd", Vec<Cmd> => "Vec<Cmd>", Option<Cmd> => "Option<Cmd>", ScoreReport => "ScoreReport", Shape => "Shape", Vec<Shape> => "Vec<Shape>",
                 std::ffi::CString => "CString", Box<std::ffi::CStr> => "Box<CStr>", Blobish => "Blobish", Vec<Blobish> => "Vec<Blobish>", BTreeMap<String, Blobish> => "BTreeMap<String,Blobish>",
                 std::ffi::OsString => "OsString", Box<str> => "Box<str>", std::rc::Rc<str> => "Rc<str>", std::borrow::Cow<'static, [u8]> => "Cow<[u8]>",
             );
@@ -538,7 +565,7 @@ pub fn run(args: &Args) {
     for i in 0..args.n {
         let mut rng = Rng::derive(args.seed, args.shard + 12000, i);
         let r = &mut rng;
-        match i % 52 {
+        match i % 53 {
             34 => {
                 let v = DupFlatten {
                     kind: "outer".into(),
@@ -567,10 +594,21 @@ pub fn run(args: &Args) {
                 check_ser(&mut rep, &v, "Vec<Vec<Vec<Refuses>>>");
                 let m: BTreeMap<String, Vec<Option<Refuses>>> = vec![("a".to_string(), vec![None, Some(Refuses)])].into_iter().collect();
                 check_ser(&mut rep, &m, "BTreeMap<String,Vec<Option<Refuses>>>");
+                let rk: BTreeMap<RefusingKey, i32> = vec![(RefusingKey(1), 2)].into_iter().collect();
+                check_ser(&mut rep, &vec![vec![rk]], "Vec<Vec<BTreeMap<RefusingKey,i32>>>");
+                // … and what comes next on this thread is unaffected (plain integers, a map with integer values)
+                both(&mut rep, &vec![3i32, 1, 2], "Vec<i32>(after a refused key)", &ident);
+                both(&mut rep, &7u64, "u64(after a refused key)", &ident);
                 // integer-keyed maps are refused by this crate only (outside the statement): not compared, just exercised
                 let ik: Vec<Vec<BTreeMap<i32, i32>>> = vec![vec![vec![(1, 2)].into_iter().collect()]];
                 let _ = guarded(|| Variable::from_serializable(&ik).is_ok());
                 rep.count("integer_keyed_map_exercised_not_compared");
+            }
+            52 => {
+                let v = [ScoreReport::Scores { by_player: vec![("7".to_string(), 31), ("23".to_string(), 18), (gstr(r), 1)].into_iter().collect() }, ScoreReport::Note { text: gstr(r) }][r.below(2)].clone();
+                both(&mut rep, &v, "ScoreReport", &ident);
+                let sh = [Shape::Point { x: gi(r, -9, 9), y: 2 }, Shape::Named(vec![("1".to_string(), 7), ("x".to_string(), 1)].into_iter().collect())][r.below(2)].clone();
+                both(&mut rep, &sh, "Shape", &ident);
             }
             50 => {
                 // adjacent rows that are identical except for loosely-equal numbers: integers beyond 2^53
@@ -706,7 +744,9 @@ pub fn run(args: &Args) {
             }
             _ => {
                 let _ = 37;
-                let b = Bytes((0..r.below(5)).map(|_| gi::<u8>(r, 0, 255)).collect());
+                // short, and long enough to cross any table / chunk size, with every byte value
+                let n = [r.below(5), 255, 256, 257, 300, 1024, 70_000][r.below(7)];
+                let b = Bytes((0..n).map(|k| if r.chance(1, 2) { (k * 7 + 3) as u8 } else { gi::<u8>(r, 0, 255) }).collect());
                 check_ser(&mut rep, &b, "Bytes(serialize_bytes)");
             }
         }
